@@ -213,6 +213,29 @@ func history(c *lib.Ctx, sc *lib.Script, fails *[]lib.OracleFail, rng *lib.RNG, 
 			if rng.Chance(1, 2) {
 				o.Unique = true
 			}
+			// second declaration over keys that already carry an index: same uniqueness mostly, another (or no)
+			// filter – the existing data must be checked against the NEW declaration (seeded change c12i: an
+			// "equivalent index already exists" early return that compared keys, uniqueness and filter nil-ness only)
+			if n := len(k.Ref.Indexes); n > 0 && rng.Chance(1, 3) {
+				ix := k.Ref.Indexes[rng.Intn(n)]
+				if len(ix.Keys) > 0 && !(len(ix.Keys) == 1 && ix.Keys[0] == "id") {
+					o.Keys = ix.Keys
+					if rng.Chance(3, 4) {
+						o.Unique = ix.Unique
+					}
+					for try := 0; try < 4; try++ {
+						f := g.IndexSpec().Filter
+						if ix.Filter != nil && f == nil && rng.Chance(1, 2) {
+							continue // keep it partial more often than not
+						}
+						o.Filter = f
+						if (f == nil) != (ix.Filter == nil) || (f != nil && !types.Equal(f, ix.Filter)) {
+							break
+						}
+					}
+					c.Hit("index:redeclared-over-existing-keys")
+				}
+			}
 		case 6:
 			o = sg.Op{Kind: "unidx", Keys: g.IndexSpec().Keys}
 		default:
